@@ -243,6 +243,42 @@ def run(tier: str, seed: int, rep: Report, model: Model) -> dict:
                 rep.violation({"what": "an array type whose scalar types contradict the tensor class was not refused with the dtype error at class definition", "class_def": d, "result": r})
         elif r.get("v") != "defined" or r.get("construct") != "accept":
             rep.violation({"what": "a consistent base type was not usable", "class_def": d, "result": r})
+    # the class-definition cross-check over every class x one or two named scalar types: the model's class_def_refused
+    # (theorem C17_class_definition) and the documented categories
+    from harness.props.c04 import documented
+
+    NPS = {"bool": "np.bool_", "i8": "np.int8", "i16": "np.int16", "i32": "np.int32", "i64": "np.int64", "u8": "np.uint8", "u16": "np.uint16", "u32": "np.uint32",
+           "u64": "np.uint64", "f16": "np.float16", "f32": "np.float32", "f64": "np.float64", "longdouble": "np.longdouble", "c64": "np.complex64"}
+    sets = [[k] for k in NPS] + [[a, b] for a, b in (("i32", "i64"), ("i32", "f32"), ("f32", "i32"), ("f16", "f64"), ("u8", "i8"), ("bool", "u8"), ("f64", "longdouble"),
+                                                      ("f32", "c64"), ("i64", "u64"), ("f16", "f32"))]
+    if tier == "thorough":
+        import itertools
+
+        sets = [[k] for k in NPS] + [list(p) for p in itertools.permutations(NPS, 2)]
+    cd_tasks = [{"cls": cls, "base": "npt.NDArray[" + " | ".join(NPS[k] for k in ks) + "]", "value": None, "scalars": ks} for cls in I.TENSOR_CLASSES for ks in sets]
+    cd_tasks = [t for t in cd_tasks if t["cls"] != "BFloat16Tensor"]
+    rep.streams["class_definitions"] = len(cd_tasks)
+    w3 = ImplWorker("harness.props.c17")
+    try:
+        cd_res = w3.call_many("impl_class_def", cd_tasks, timeout=30.0)
+    finally:
+        w3.close()
+    cd_model = model.ask_many([f"(classdef ({' '.join(I.class_dtoks(t['cls']))}) ({' '.join(t['scalars'])}))" for t in cd_tasks])
+    for t, r, mans in zip(cd_tasks, cd_res, cd_model):
+        if "__skipped__" in r:
+            continue
+        want = any(not documented(t["cls"], "np", k) for k in t["scalars"])
+        refused = r.get("v") == "decerr" and r.get("kind") == "Dtype"
+        rep.case(("classdef", t["cls"], tuple(t["scalars"])), None)
+        rep.count(f"classdef_sweep:{'refused' if refused else r.get('v')}")
+        rec = {"class": t["cls"], "base": t["base"], "result": r, "model_refuses": mans == "1", "documented_refuses": want}
+        if r.get("v") not in ("defined", "decerr") or (r.get("v") == "decerr" and not refused):
+            rep.violation({"what": "class definition failed with something other than the dtype error", **rec})
+        elif refused != want:
+            rep.violation({"what": "class definition " + ("refused although every named scalar type belongs to the class" if refused else
+                                                          "accepted although a named scalar type contradicts the tensor class"), **rec})
+        elif refused != (mans == "1"):
+            rep.disagreement({"what": "model of the class-definition cross-check and implementation differ", **rec})
     rep.case("nested", nested)
     for p in nested.get("problems", [{"what": "nested-model run did not finish", "detail": nested}] if "problems" not in nested else []):
         rep.violation(p)
